@@ -232,6 +232,15 @@ func (ci *concInterp) step(pl *proto.ConcPayload, st *proto.ConcStep, tag string
 					a.WriteString(k + "=" + term.Text(ci.cv.toTree(v.t, v.env), concVar) + ";")
 					t.WriteString(k + "=" + string(ts[k]) + ";")
 				}
+				if _, ok := m["X"]; ok {
+					// the same through a struct destination (conversion plans kept per destination type must not keep an interpreter)
+					var sx struct{ X prolog.TermString }
+					if err := sols.Scan(&sx); err != nil {
+						ci.setErr(&o, fmt.Errorf("scan into a struct: %w", err))
+						break
+					}
+					t.WriteString("struct.X=" + string(sx.X) + ";")
+				}
 				o.Ans = append(o.Ans, a.String())
 				o.TS = append(o.TS, t.String())
 			}
